@@ -235,6 +235,13 @@ func runUT(args []string) string {
 	return unmarshalErrClass(err) + " | " + msgShow(m)
 }
 
+// GUT <hex>: UT for the translated UnmarshalText, which does not keep which strconv error it wrapped
+func runGUT(args []string) string {
+	r := runUT(args)
+	r = strings.Replace(r, "RETRY-SYNTAX |", "RETRY-INVALID |", 1)
+	return strings.Replace(r, "RETRY-RANGE |", "RETRY-INVALID |", 1)
+}
+
 func fieldErrClass(err error) string {
 	switch {
 	case err == nil:
@@ -517,6 +524,7 @@ func init() {
 	runners["WT"] = runWT
 	runners["RT"] = runRT
 	runners["UT"] = runUT
+	runners["GUT"] = runGUT
 	runners["FLD"] = runFLD
 	runners["FAM"] = runFAM
 }
